@@ -383,9 +383,57 @@ def d6(**kw):
     return sc.rec
 
 
+def _ser_mode(mode, **kw):
+    """snapshot in the serializer modes the Coq model does not cover (fork, user-supplied functions): implementation
+    under the monitors only - compaction while commands keep arriving, catch-up by snapshot, restart from the dump"""
+    import time
+    extra = {'fork': True} if mode == 'fork' else {'custom': True}
+    sc = Script(base_cfg([1, 2, 3], dump='file', journal='file', chunk=48, **extra), **kw)
+    sc.rec.model_ok = False
+    s = sc.s
+    sim = sc.sim
+    s.boot()
+    sc.elect(1)
+    sc.settle([1, 2, 3], 2)
+    for _ in range(4):
+        s.submit(1, size=20)
+    sc.settle([1, 2, 3], 4)
+    sc.isolate(3)
+    for _ in range(4):
+        s.submit(2, size=20)
+    sc.settle([1, 2], 4)
+    for n in (1, 2):
+        sc.rec.do(('compact', n))
+    for _ in range(3):
+        s.submit(1, size=20)           # commands keep being applied while the snapshot is written
+    for i in range(40):
+        sc.settle([1, 2], 1)
+        busy = [n for n in (1, 2) if sim.nodes[n]._SyncObj__serializer._Serializer__pid != 0]
+        if not busy and i > 3:
+            break
+        time.sleep(0.02)
+    sc.join(3)
+    sc.settle([1, 2, 3], 10)
+    s.kill(2)
+    s.restart(2)
+    sc.settle([1, 2, 3], 6)
+    s.submit(3, size=20)
+    sc.settle([1, 2, 3], 5)
+    return sc.rec
+
+
+def ser_fork(**kw):
+    return _ser_mode('fork', **kw)
+
+
+def ser_custom(**kw):
+    return _ser_mode('custom', **kw)
+
+
 SCENARIOS = {'d7': d7, 'd8': d8, 'd17': d17, 'd16': d16, 'd1': d1, 'd20': d20,
              'snapshot_catchup': snapshot_catchup, 'forwarded': forwarded,
-             'restart_double_vote': restart_double_vote, 'd18': d18, 'd10': d10, 'd19': d19, 'd6': d6}
+             'restart_double_vote': restart_double_vote, 'd18': d18, 'd10': d10, 'd19': d19, 'd6': d6,
+             'ser_fork': ser_fork, 'ser_custom': ser_custom}
 NAMES = sorted(SCENARIOS)
 
 
